@@ -320,7 +320,7 @@ def conclude(mod, prop, tier, seed, results, wall, write_evidence=True):
         'coverage': {
             'evaluations': len(results),
             'distinct_nontrivial': len(sigs),
-            'rule': mod.RULE,
+            'rule': (mod.RULE if isinstance(mod.RULE, str) else ' '.join(mod.RULE)) + ((' ' + mod.RULE_ADDENDUM) if getattr(mod, 'RULE_ADDENDUM', None) else ''),
             'samples': samples or [{'note': 'no conclusive non-trivial case'}],
             'verdicts': verdicts,
             'inconclusive_reasons': why,
